@@ -68,6 +68,11 @@ def gen_weed(rng, samples, k, kind, rcmode):
         if rng.random() < 0.2 and len(w) > 2:
             i = rng.randrange(len(w))
             w = w[:i] + rng.choice('NnACGT') + w[i + 1:]
+        if rng.random() < 0.25 and len(w) > k + 1:
+            i = len(w) - k - 1                       # exactly k bases follow the N (and sometimes exactly k precede one)
+            w = w[:i] + 'N' + w[i + 1:]
+            if rng.random() < 0.5 and len(w) > 2 * k + 2:
+                w = w[:k] + 'n' + w[k + 1:]
         if rng.random() < 0.2:
             w = w.lower()
         recs.append(w)
